@@ -129,3 +129,14 @@ CHECKS["C05"] = dict(
     assumptions=FAPP_ASSUME,
     units=[dict(pkg="app", test="TestVerifC05App", shards_quick=16, shards_thorough=16, budget_quick=100, budget_thorough=1500)],
 )
+
+CHECKS["C13"] = dict(
+    level="model_checking",
+    engine="seqx",
+    rule="all event sequences up to the completed depth over {POST A with (start,end) in {none,-30s}x{none,+5m,-10s/now}, POST B heartbeat, POST batch [valid + 3 invalid], silence B on/off, advance 20s/50s/61s} through the real HTTP handler of the assembled App (3 routes, continue), GET /api/v2/alerts compared with the reference after every event; states = distinct reference traces; transitions = events",
+    technique="bounded-exhaustive event-sequence exploration of the assembled implementation against a contract reference model (sets of allowed values where the statement leaves a tie-break open)",
+    level_text="After every event GET /api/v2/alerts is compared with a reference written from the statement and docs/alerts_api.md: start/end defaults, timeout end pushed forward by re-sends, earliest start kept on overlap, explicit past end resolves immediately, every valid alert of a batch stored although the answer is 400, exactly the unexpired alerts are returned (never collected while unresolved), receivers per the routing tree, suppression status, filter consistency.",
+    level_note="resolve_timeout 1m, alert GC 45s. End == now is not judged. Merge tie-breaks not fixed by the statement are compared as allowed sets and collapsed to the observed value.",
+    assumptions=FAPP_ASSUME,
+    units=[dict(pkg="app", test="TestVerifC13", shards_quick=16, shards_thorough=16, budget_quick=100, budget_thorough=1500)],
+)
